@@ -69,6 +69,18 @@ fn usable_rel_path(p: &str) -> bool {
     !p.is_empty() && !p.ends_with('/') && !p.starts_with('/') && p.split('/').all(|c| !c.is_empty() && c != "." && c != "..") && p.split('/').all(|c| c.len() < 200)
 }
 
+/// the directories that creating the given relative files calls for: their ancestors, nothing else
+fn ancestors_of(files: &[&str]) -> Vec<String> {
+    let mut out = std::collections::BTreeSet::new();
+    for f in files {
+        let comps: Vec<&str> = f.split('/').collect();
+        for k in 1..comps.len() {
+            out.insert(comps[..k].join("/"));
+        }
+    }
+    out.into_iter().collect()
+}
+
 fn files_of(sb: &Sandbox) -> Vec<String> {
     snapshot(&sb.dir).into_iter().filter(|(_, e)| matches!(e, Entry::File(_))).map(|(k, _)| k).collect()
 }
@@ -101,7 +113,9 @@ pub fn check(path: &str, via: Via) -> Option<(String, String)> {
             if !usable_rel_path(&want_rel) {
                 return None; // the expanded string is not a creatable file path; only totality is checked
             }
-            let got = files_of(&sb);
+            let snap = snapshot(&sb.dir);
+            let got: Vec<String> = snap.iter().filter(|(_, e)| matches!(e, Entry::File(_))).map(|(k, _)| k.clone()).collect();
+            let dirs: Vec<String> = snap.iter().filter(|(_, e)| matches!(e, Entry::Dir)).map(|(k, _)| k.clone()).collect();
             match r {
                 Err(e) => Some((format!("{:?}:build-failed", via), format!("path {:?} should create {:?} but build failed: {}", path, want_rel, e))),
                 Ok(()) => {
@@ -114,6 +128,8 @@ pub fn check(path: &str, via: Via) -> Option<(String, String)> {
                             "wrong-files"
                         };
                         Some((format!("{:?}:{}", via, kind), format!("path {:?}: created {:?}, expected exactly {:?}", path, got, want_rel)))
+                    } else if dirs != ancestors_of(&[want_rel.as_str()]) {
+                        Some((format!("{:?}:stray-directory", via), format!("path {:?}: directories {:?}, expected exactly the ancestors of {:?}", path, dirs, want_rel)))
                     } else {
                         None
                     }
@@ -142,6 +158,7 @@ pub fn check(path: &str, via: Via) -> Option<(String, String)> {
                 return None;
             }
             let snap = snapshot(&sb.dir);
+            let dirs: Vec<String> = snap.iter().filter(|(_, e)| matches!(e, Entry::Dir)).map(|(k, _)| k.clone()).collect();
             let got: std::collections::BTreeMap<String, Vec<u8>> = snap.into_iter().filter_map(|(k, e)| match e { Entry::File(b) => Some((k, b)), _ => None }).collect();
             let mut want = std::collections::BTreeMap::new();
             want.insert(want0.clone(), b"second".to_vec());
@@ -151,6 +168,8 @@ pub fn check(path: &str, via: Via) -> Option<(String, String)> {
                 Ok(()) => {
                     if got != want {
                         Some(("Roller:wrong-location".into(), format!("pattern {:?}: files {:?}, expected exactly {:?}", pattern_rel, got.iter().map(|(k, v)| (k.clone(), String::from_utf8_lossy(v).into_owned())).collect::<Vec<_>>(), want.keys().collect::<Vec<_>>())))
+                    } else if dirs != ancestors_of(&[want0.as_str(), want1.as_str()]) {
+                        Some(("Roller:stray-directory".into(), format!("pattern {:?}: directories {:?}, expected exactly the ancestors of {:?} and {:?}", pattern_rel, dirs, want0, want1)))
                     } else {
                         None
                     }
@@ -255,14 +274,15 @@ pub fn run(ctx: &Ctx) -> Report {
     let mut capped = false;
     for len in 0..=maxlen {
         let n = (TOKENS.len() as u64).pow(len as u32);
-        let res: Vec<(u64, u64, Vec<(String, Via, (String, String))>)> = (0..n)
+        let res: Vec<(u64, u64, Vec<(String, Via, (String, String))>, u64)> = (0..n)
             .into_par_iter()
             .fold(
-                || (0u64, 0u64, Vec::new()),
+                || (0u64, 0u64, Vec::new(), 0u64),
                 |mut acc, i| {
                     if ctx.over_cap() {
                         return acc;
                     }
+                    acc.3 += 1;
                     let p = nth_seq(i, len);
                     let mut vias = vec![Via::File];
                     if len <= sublen {
@@ -287,8 +307,8 @@ pub fn run(ctx: &Ctx) -> Report {
             )
             .collect();
         let mut done = 0;
-        for (n_eval, nt, bad) in res {
-            done += n_eval;
+        for (n_eval, nt, bad, strings) in res {
+            done += strings;
             rep.add("evaluations", n_eval);
             rep.add("distinct_nontrivial", nt);
             for (p, via, (s, d)) in bad {
